@@ -14,7 +14,7 @@ encode = default_encode(SIG)
 decode = default_decode(SIG)
 TASK_REQS = 1500
 EXH_SCALE = 0.25   # binary gcd is slow: narrower quick-tier slices in the in-process sweeps
-RULE = ('Integer (div_floor, mod_floor, div_rem, div_mod_floor, gcd, lcm, is_multiple_of, is_even/odd), Roots (sqrt, cbrt, nth_root '
+RULE = ('Integer (div_floor, mod_floor, div_rem, div_mod_floor, div_ceil, next/prev_multiple_of, gcd, lcm, gcd_lcm, is_multiple_of, is_even/odd), Roots (sqrt, cbrt, nth_root '
         'with degrees 1..8, 40, 63..65, BITS-1..BITS+1, u32::MAX and random), Euclid, CheckedEuclid, Signed, PrimInt, Bounded, '
         'Zero/One, Num, Pow, MulAdd(Assign) and the Checked/Wrapping/Saturating/Overflowing forwarders, all called through the '
         'traits; the same calls on the Rust primitives (num_traits/num_integer own impls) calibrate the model. Operands: all sign '
@@ -211,6 +211,17 @@ def model(cfg, ctx, group, args):
                 cls.add('floor differs from truncation (signs differ, remainder non-zero)')
             elif r != 0 and a < 0:
                 cls.add('both negative, remainder non-zero')
+        # provided methods of Integer (documented in terms of the required ones): ceiling division, rounding to multiples
+        if b == 0 or (cfg.signed and a == cfg.min and b == -1):
+            for k in ('Integer::div_ceil', 'Integer::next_multiple_of', 'Integer::prev_multiple_of'):
+                exp[k] = ANY
+        else:
+            ce = -((-a) // b)
+            exp['Integer::div_ceil'] = ce if cfg.fits(ce) else ANY
+            nm = a if md == 0 else a - md + b      # "rounds up to the nearest multiple" (towards the sign of the argument for signed types)
+            pm = a - md
+            exp['Integer::next_multiple_of'] = nm if cfg.fits(nm) else ANY
+            exp['Integer::prev_multiple_of'] = pm if cfg.fits(pm) else ANY
         g = math.gcd(a, b)
         exp['Integer::gcd'] = g if cfg.fits(g) else ANY
         if not cfg.fits(g):
@@ -226,6 +237,12 @@ def model(cfg, ctx, group, args):
                 cls.add('lcm not representable')
             elif g > 1:
                 cls.add('gcd > 1, lcm representable')
+        # gcd_lcm: the pair (gcd, lcm); judged where both are representable (gcd(MIN, 0)-style inputs are left open like lcm above)
+        eg, el = exp['Integer::gcd'], exp['Integer::lcm']
+        if eg is ANY or el is ANY or isinstance(el, NoCalib):
+            exp['Integer::gcd_lcm'] = ANY
+        else:
+            exp['Integer::gcd_lcm'] = (eg, el)
         if cfg.signed:
             exp['Signed::abs'] = arith(abs(a))
             exp['Signed::abs_sub'] = 0 if a <= b else arith(a - b)
